@@ -41,6 +41,17 @@ def gen(rng, tier, no, wide=False):
             ops.append(["table"])
     ops.append(["table"])
     n = len(case["ranks"])
+    # vocabulary sizes on both sides of the narrow integer boundaries (int8: 127, uint8: 255): one rank gets many
+    # distinct operator names so that global ids exceed what another rank's small local table needs
+    if rng.random() < 0.35:
+        big = rng.choice(sorted(case["ranks"]))
+        ev = case["ranks"][big]
+        xs = [e for e in ev if e.get("ph") == "X"]
+        t0 = max((e["ts"] + e.get("dur", 0) for e in xs), default=0) + 10
+        host = next((e for e in xs if e.get("cat") == "cpu_op"), xs[0])
+        for k in range(rng.choice([130, 140, 270])):
+            ev.append({"ph": "X", "cat": "cpu_op", "name": f"aten::vocab_r{big}_{k}", "pid": host["pid"], "tid": host["tid"],
+                       "ts": t0 + 3 * k, "dur": 2})
     case["params"] = {"ops": ops, "mp": rng.random() < 0.6, "order": rng.sample(range(n), n),
                       "probe": (no % (4 if tier == "quick" else 3)) == 0, "mp_symbols": rng.random() < 0.2}
     return case
